@@ -808,12 +808,19 @@ def propagate_copies(fn: ast.AST) -> bool:
         if isinstance(n, ast.Name) and isinstance(n.ctx, (ast.Store, ast.Del)):
             stores[n.id] = stores.get(n.id, 0) + 1
     ren = {}
+    copies: dict[str, set] = {}
+    ncopy: dict[str, int] = {}
     for blk in _blocks(fn):
         for s in blk:
             if isinstance(s, ast.Assign) and len(s.targets) == 1 and isinstance(s.targets[0], ast.Name) and isinstance(s.value, ast.Name):
-                x, y = s.targets[0].id, s.value.id
-                if x != y and x not in params and stores.get(x) == 1 and (stores.get(y, 0) == 1 or (y in params and stores.get(y, 0) == 0)) and x not in ren and y not in ren:
-                    ren[x] = y
+                copies.setdefault(s.targets[0].id, set()).add(s.value.id)
+                ncopy[s.targets[0].id] = ncopy.get(s.targets[0].id, 0) + 1
+    for x, ys in copies.items():
+        # every binding of x is `x = y` for one and the same y (a result temp set in several branches), y itself bound once
+        if len(ys) == 1 and ncopy[x] == stores.get(x):
+            y = next(iter(ys))
+            if x != y and x not in params and (stores.get(y, 0) == 1 or (y in params and stores.get(y, 0) == 0)) and x not in ren and y not in ren:
+                ren[x] = y
     if not ren:
         return False
     # resolve chains
